@@ -178,6 +178,36 @@ def run(tier):
             if any(s[0] in ('reshuffle', 'local', 'apply') for s in spec) and spec[-1][0] != 'prefetch':
                 if ds.ordered:
                     failures.append(dict(kind='program', summary=f'a pipeline containing a per-epoch shuffle reports ordered=True: {spec}', config=dict(spec=spec, seeds=seeds, m=m)))
+        # (4') ... also when the random stage is one of several inputs of a combining stage, at any input position, and below further stages
+        for _ in range(300 if big else 60):
+            n = r.randint(2, 5)
+            plain = lambda: ld.new({f'k{i}': i for i in range(n)})
+            kind = r.choice(['reshuffle', 'local', 'lazyapply'])
+
+            def rnd():
+                d = plain()
+                if kind == 'reshuffle': return d.shuffle(True, rng=np.random.RandomState(1))
+                if kind == 'local': return d.shuffle(True, rng=np.random.RandomState(1), buffer_size=2)
+                return d.apply(lambda x: x.shuffle(True, rng=np.random.RandomState(1)), lazy=True)
+            k = r.choice([2, 2, 3])
+            pos = r.randrange(k)
+            inputs = [rnd() if i == pos else plain() for i in range(k)]
+            comb = r.choice(['zip', 'concatenate', 'intersperse'])
+            try:
+                if comb == 'zip': d = ld.zip(*inputs)
+                elif comb == 'concatenate': d = ld.concatenate(*inputs)
+                else: d = ld.intersperse(*inputs)
+                for st in r.sample(['map', 'batch', 'filter', 'unbatch', 'prefetch1'], r.randint(0, 2)):
+                    if st == 'map': d = d.map(lambda x: x)
+                    elif st == 'batch': d = d.batch(2)
+                    elif st == 'filter': d = d.filter(lambda x: True)
+                    elif st == 'unbatch': d = d.batch(2).unbatch()
+                    else: d = d.prefetch(1, 2)
+                od = d.ordered
+            except Exception:
+                continue
+            if od:
+                failures.append(dict(kind='program', summary=f'{comb} of {k} inputs with a {kind} stage at input {pos} (and stages on top) reports ordered=True', config=dict(comb=comb, k=k, pos=pos, kind=kind)))
         # (5) copy() preserves every configuration parameter of every stage
         for msg in copy_params(ld):
             failures.append(dict(kind='program', summary=msg, config={}))
